@@ -169,6 +169,13 @@ def run_cases(ctx: Ctx, cases, tag="C10"):
         t, infos, _ = E.scoring_term(case, res)
         sc_terms.append(t)
         sc_infos.append(infos)
+    rt_terms, rt_meta = [], []
+    for k, (case, res) in enumerate(live):
+        for term, infos, model in E.scoring_terms_rt(case, res):
+            rt_terms.append(term)
+            rt_meta.append((k, infos, model))
+    bad_rt, errs0 = ctx.eval_cases(tag + "_rt", E.HEADER, rt_terms, "run_case", shard=10, timeout=900)
+    rt_fail = [rt_meta[i] for i in bad_rt]
     bad_sc, errs1 = ctx.eval_cases(tag + "_sc", E.HEADER, sc_terms, "run_case", shard=4, timeout=900)
     bad_fm, errs2 = ctx.eval_cases(tag + "_fm", E.HEADER, [E.fm_term(c, r) for c, r in live], "run_fm", shard=6, timeout=900)
     bad_me, errs3 = ctx.eval_cases(tag + "_me", E.HEADER, [E.me_term(c, r) for c, r in live], "run_me", shard=6, timeout=900)
@@ -192,7 +199,7 @@ def run_cases(ctx: Ctx, cases, tag="C10"):
         for i, ptxt in zip(sel, parts):
             details[i] = [(int(a), [int(x) for x in re.findall(r"\d+", b)])
                           for a, b in re.findall(r"\((\d+)(?:%nat)?, \[([^\]]*)\]\)", ptxt)]
-    return results, live, sc_infos, (bad_sc, bad_fm, bad_me, bad_tf), errs1 + errs2 + errs3 + errs4, details
+    return results, live, sc_infos, (bad_sc, bad_fm, bad_me, bad_tf, rt_fail), errs0 + errs1 + errs2 + errs3 + errs4, details
 
 
 def sql_stage(ctx: Ctx, live, tag="C10"):
@@ -229,7 +236,7 @@ def sql_stage(ctx: Ctx, live, tag="C10"):
             continue
         entries.sort(key=lambda e: PHASES.index(e[0]))
         fmthr = [Fr(repr(float(-1e6))), Fr(repr(float(res["fm"]["thr"])))]
-        supplied = "c10_pred" in " ".join(sql for ph, sql in res["sql_log"] if ph == "missing_edges" and "__splink__df_predict_with_join_keys" in sql)
+        supplied = res["me"]["supplied"]
         terms.append(f"({coq_list([t for _, t in entries], 's_entry')}, {coq_list([coq_Q(t) for t in fmthr], 'Q')}, {coq_bool(supplied)}, "
                      f"{coq_bool(spec.get('mode') in ('T', 'P2'))})")
         metas.append((case, [ph for ph, _ in entries]))
@@ -335,7 +342,7 @@ def features(case, extra):
 
 
 def report(ctx: Ctx, results, live, sc_infos, bads, errs, details):
-    bad_sc, bad_fm, bad_me, bad_tf = bads
+    bad_sc, bad_fm, bad_me, bad_tf, rt_fail = bads
     seen = set()
 
     def once(key):
@@ -387,13 +394,27 @@ def report(ctx: Ctx, results, live, sc_infos, bads, errs, details):
                            "specification": exp, "within_rounding_of_threshold": near,
                            "note": "pairs are indices into case.rows"},
                           features(case, {"claim": "missing_edges_set"}))
+    for k, infos, model in rt_fail:
+        case, res = live[k]
+        if once("rt_seq"):
+            seq = res["rt_seq"]
+            calls = [{"model": e[0], "settings_form": e[1].split(":")[1], "left": e[2], "right": e[3],
+                      "implementation": {q: v for q, v in e[5].items() if q.startswith(("gamma_", "bf_", "match_"))}} for e in seq["rows"]]
+            spec_side = [{"pair": i["pair"], "settings_form": i["entry"].split(":")[1],
+                          "match_weight": None if i["py"] is None else ("inf" if i["py"]["score"] == "inf" else math.log2(i["py"]["score"])),
+                          "implementation_match_weight": i["rec"].get("match_weight")} for i in infos]
+            ctx.violation("realtime compare_records with the SQL cache on scored a call with another model's parameters "
+                          "(models differing only in m / u / TF configuration)",
+                          {"case": case, "models": seq["models"], "calls_in_order": calls, "failing_model": seq["models"].index(model),
+                           "specification_for_failing_model": spec_side},
+                          features(case, {"claim": "score", "entries": ["realtime.compare_records"], "realtime_sequence": True}))
     for i in bad_tf:
         case, res = live[i]
         if once("tf"):
             ctx.violation("the TF values used for the comparison are not what the EntryPoints model (adhoc_tf / data_tf with the route "
                           "priority) computes - harness and model disagree", {"broken": "C10_tf (model TF sources)", "case": case},
                           features(case, {"claim": "tf_source_model"}), found_input=False)
-    if errs and not (bad_sc or bad_fm or bad_me or bad_tf):
+    if errs and not (bad_sc or bad_fm or bad_me or bad_tf or rt_fail):
         ctx.violation("correspondence C10 could not be evaluated", {"broken": "C10_x", "errors": errs[:3]}, found_input=False)
 
 
@@ -441,6 +462,8 @@ def run(ctx: Ctx):
     ctx.obligation(f"every entry point's rows = shared scorer on its own TF source ({len(live)} cases)", not bads[0] and not errs)
     ctx.obligation(f"find_matches set = admitted pairs strictly above threshold ({len(live)} cases)", not bads[1] and not errs)
     ctx.obligation(f"missing-edge set = within-cluster pairs minus predictions ({len(live)} cases)", not bads[2] and not errs)
+    ctx.obligation("realtime sequences over models differing only in m/u/TF configuration: every call scored with its own model",
+                   not bads[4] and not errs)
     ctx.obligation(f"TF values fed to the scorer = adhoc_tf / data_tf of the EntryPoints model with route_priority ({len(live)} cases)",
                    not bads[3] and not errs)
     nagree, disagreements = 0, []
@@ -467,6 +490,10 @@ def run(ctx: Ctx):
         ctx.hist("fm_output_size", len(res["fm"]["impl"]))
         ctx.hist("me_output_size", len(res["me"]["impl"]))
         ctx.hist("me_predictions_supplied", len(res["me"]["preds"]))
+        ctx.hist("me_predictions_registered_as", res["me"]["predictions"])
+        for f in res["rt_seq"]["forms"]:
+            ctx.hist("realtime_sequence_settings_form", f)
+        ctx.cov["evaluations"] += len(res["rt_seq"]["rows"])
         ctx.hist("exact_threshold_stream", bool(case.get("exact_thr")))
         for e in res["entries"]:
             ctx.hist("entry", e[0])
